@@ -879,7 +879,7 @@ pub fn profile_cells(ctx: &crate::props::Ctx, k: u64, out: &mut dyn std::io::Wri
                 Err(e) => crate::exec::err_class(&e),
                 Ok(f) => {
                     let map = format::walk(&bytes);
-                    let costs = costs_for(&map, 1 << 18);
+                    let costs = costs_for(&map, 1 << 13);
                     let (nl, nf) = (f.num_layers(), f.num_frames());
                     let mut ops = vec![Op::Meta, Op::Palette, Op::Tags, Op::Slices, Op::Tilesets, Op::ExtFiles, Op::FrameImage(0), Op::FrameImage(1), Op::TilesetImage(0), Op::TileImage(0, 1)];
                     for la in 0..nl.min(6) {
